@@ -191,8 +191,11 @@ def _mk_frame(family):
                      "requests: the configuration fixed at construction time is what every request is parsed with")
     def ob(c):
         kind = c.choose(sorted(requests_for(family)), 'request_kind')
-        h = Harness(c, family, user_outcomes=['return'])
+        # every validator setting: building the application (set_app) must not touch the parser configuration either
+        h = Harness(c, family, user_outcomes=['return'], validator=c.choose(['soft', None, 'lxml'], 'validator'))
         inp = h.app.in_protocol
+        c.check('safe_configuration_after_application_setup', all(inp.parser_kwargs[k] is v for k, v in SAFE.items()),
+                detail={k: inp.parser_kwargs.get(k) for k in SAFE})
         before = dict(inp.parser_kwargs)
         writes = []
         if not c.concrete:
@@ -213,7 +216,7 @@ for _f in ('xml', 'soap11', 'soap12'):
 
 
 ATTACKS = ['external_general_entity_file', 'external_parameter_entity', 'external_dtd', 'internal_entity',
-           'billion_laughs', 'xinclude', 'deep_nesting']
+           'billion_laughs', 'xinclude', 'deep_nesting', 'external_dtd_attribute_default']
 
 
 def _attack_doc(kind, family, canary_path, slot):
@@ -234,6 +237,10 @@ def _attack_doc(kind, family, canary_path, slot):
         ents = ['<!ENTITY a0 "lol">'] + ['<!ENTITY a%d "%s">' % (i, ('&a%d;' % (i - 1)) * 10) for i in range(1, 10)]
         dtd = '<!DOCTYPE x [%s]>' % ''.join(ents)
         payload = '&a9;'
+    elif kind == 'external_dtd_attribute_default':
+        # the canary file doubles as an external DTD subset that declares a default attribute value
+        dtd = '<!DOCTYPE x SYSTEM "file://%s">' % canary_path
+        payload = '5' if slot == 'i' else 'plain'
     elif kind == 'deep_nesting':
         dtd = ''
         payload = '<n>' * 2000 + '5' + '</n>' * 2000
@@ -249,7 +256,7 @@ def _attack_doc(kind, family, canary_path, slot):
 
 def _mk_audit(family):
     @obligation('C17.audit.%s' % family, targets=['spyne.server.wsgi:WsgiApplication.handle_rpc'],
-                bounded="canary corpus of 7 attack documents x {integer, text} slots x {with, without charset} x {plain, root part of a "
+                bounded="canary corpus of 8 attack documents x 3 validator settings x {integer, text} slots x {with, without charset} x {plain, root part of a "
                         "multipart/related request} against the "
                         "installed lxml (audit of the assumed external contract, not a proof)",
                 desc="with default settings, external/parameter/internal entities, external DTDs and XInclude never bring "
@@ -268,7 +275,10 @@ def _mk_audit(family):
         canary = os.path.join(d, 'canary.txt')
         token = 'CANARY-4242-TOKEN'
         with open(canary, 'w') as f:
-            f.write('77' if slot == 'i' else token)
+            if kind == 'external_dtd_attribute_default':
+                f.write('<!ATTLIST tns:m canary CDATA "%s">\n<!ATTLIST tns:u canary CDATA "%s">\n' % (token, token))
+            else:
+                f.write('77' if slot == 'i' else token)
         got = []
 
         def m(ctx, i, u):
@@ -277,7 +287,7 @@ def _mk_audit(family):
         m._pyvc_native = True
         try:
             Svc = type(ServiceBase)('Svc', (ServiceBase,), {'m': rpc(Integer, Unicode, _returns=Unicode)(m)})
-            inp, outp = protocols(family, None)
+            inp, outp = protocols(family, c.choose([None, 'soft', 'lxml'], 'validator'))
             wsgi = WsgiApplication(Application([Svc], TNS, name='VApp', in_protocol=inp, out_protocol=outp))
             body = _attack_doc(kind, family, canary, slot)
             if charset:
